@@ -119,3 +119,58 @@ Theorem C03_positional_is_spec_with_table_refuted :
   length (spec_diff (fun _ _ => []) true k2_t1 k2_t2) = 2.
 Proof. exact DiffMemoProofs.positional_with_table_refuted_alias. Qed.
 Print Assumptions C03_positional_is_spec_with_table_refuted.
+
+(* ---- the table WITHOUT the alias guard (Diff/DiffMemoFinal.v) ----
+   for ALL well-formed inputs, every hasher and DeepHash option set: in positional mode the verbose text view of
+   the run with DeepDiff's run-wide table is that of the memo-free positional run whose item hash is read off
+   the table the run ends with, as a multiset of entries (mutual_add_removes is the identity on both) *)
+From DD Require Diff.DiffMemoFinal Diff.DiffVerbose.
+
+Theorem C03_positional_with_table_is_memo_free_run :
+  forall H o udiff ops excl d ip t1 t2,
+    wf t1 = true -> wf t2 = true ->
+    Permutation.Permutation
+      (text_view 2 (fst (fst (DiffMemo.run_diff_m H o udiff ops (fun _ => false) excl (mkCfg true 0 d ip) t1 t2))))
+      (text_view 2 (fst (run_diff (DiffMemoFinal.hfin H o (DiffMemoFinal.final_table H o udiff ops excl (mkCfg true 0 d ip) (fun _ => false) t1 t2))
+                                  udiff ops (fun _ => false) excl (mkCfg true 0 d ip) t1 t2))).
+Proof. intros. apply DiffMemoFinal.run_diff_m_positional_is_memo_free; assumption. Qed.
+Print Assumptions C03_positional_with_table_is_memo_free_run.
+
+(* ---- verbose_level 0 and 1 (Diff/DiffVerbose.v) ----
+   The text view at a lower verbosity is a projection of the verbose one, entry by entry and for EVERY result tree
+   ([tproj v]: type_changes lose new_path below 2 and the two values at 0; values_changed lose new_path below 2 and
+   VANISH at 0; dictionary_item_added / removed lose the value below 2; iterable_item_moved vanish below 2; the
+   other categories are unchanged) ... *)
+Theorem C03_text_view_is_projection :
+  forall v es, text_view v es = flat_map (DiffVerbose.tproj v) (text_view 2 es).
+Proof. exact DiffVerbose.text_view_proj. Qed.
+Print Assumptions C03_text_view_is_projection.
+
+(* ... hence at EVERY verbose_level the positional result is the projection of the recursive definition *)
+Theorem C03_positional_is_spec_at_every_verbosity :
+  forall v hatom udiff ops excl d ip t1 t2,
+    (forall a b, hatom a = hatom b -> a = b) ->
+    wf t1 = true -> wf t2 = true ->
+    text_view v (fst (run_diff hatom udiff ops (fun _ => false) excl (mkCfg true 0 d ip) t1 t2))
+    = DiffVerbose.spec_diff_at v udiff ip t1 t2.
+Proof. intros. apply DiffVerbose.positional_run_is_spec_at; assumption. Qed.
+Print Assumptions C03_positional_is_spec_at_every_verbosity.
+
+Theorem C03_positional_is_spec_at_every_verbosity_deephash :
+  forall v H o udiff ops excl d ip t1 t2,
+    (forall s t, H s = H t -> s = t) -> Hash.HashModel.plain o = true ->
+    wf t1 = true -> wf t2 = true ->
+    inputs_ok any_atom Hash.HashModel.tag_safe_atom t1 = true ->
+    inputs_ok any_atom Hash.HashModel.tag_safe_atom t2 = true ->
+    text_view v (fst (run_diff (Hash.HashModel.hash_atom H o) udiff ops (fun _ => false) excl (mkCfg true 0 d ip) t1 t2))
+    = DiffVerbose.spec_diff_at v udiff ip t1 t2.
+Proof. intros. apply DiffVerbose.positional_run_is_spec_at_deephash; assumption. Qed.
+Print Assumptions C03_positional_is_spec_at_every_verbosity_deephash.
+
+(* verbose_level 0 loses differences: 1 vs 2 has an empty text view there, one entry at verbose_level 1 *)
+Theorem C03_verbose0_loses_value_changes :
+  py_eqv (VAtom (AInt 1)) (VAtom (AInt 2)) = false /\
+  text_view 0 (fst (run_diff inj_hash (fun _ _ => []) one_block (fun _ => false) (fun _ => false) (mkCfg true 0 1 true) (VAtom (AInt 1)) (VAtom (AInt 2)))) = [] /\
+  length (text_view 1 (fst (run_diff inj_hash (fun _ _ => []) one_block (fun _ => false) (fun _ => false) (mkCfg true 0 1 true) (VAtom (AInt 1)) (VAtom (AInt 2))))) = 1.
+Proof. exact DiffVerbose.verbose0_loses_value_changes. Qed.
+Print Assumptions C03_verbose0_loses_value_changes.
